@@ -114,6 +114,41 @@ theorem single_site_exact (L : Mat3) (hd : L.det ≠ 0) (p0 : Vec3) (r : Atoms) 
     simp only [hv]
     exact Mofun.C05.wrap_of_inCell L _ hd hin
 
+/-! ### which structure terms a pattern term supersedes -/
+
+/-- **supersede_only_same_tuple**: in `extend` (hence in self-replacement with a pattern that carries terms) a term of
+    the structure is dropped in favour of a pattern term iff its atom tuple EQUALS a new tuple forwards or backwards.
+    A term over the same SET of atoms in another order — the other angles of a 3-ring, the other torsions of a
+    4-ring — is never superseded. -/
+theorem supersede_only_same_tuple (old : List Term) (new : List (List Nat)) (i : Nat) :
+    i ∈ existingIdx old new ↔ ∃ t, old[i]? = some t ∧ ∃ u ∈ new, t.atoms = u ∨ t.atoms = u.reverse := by
+  unfold existingIdx
+  simp only [List.mem_filter, List.mem_range]
+  constructor
+  · rintro ⟨hi, h⟩
+    have hget : old[i]? = some old[i] := List.getElem?_eq_getElem hi
+    rw [hget] at h
+    simp only [Bool.or_eq_true, List.any_eq_true, decide_eq_true_eq] at h
+    refine ⟨old[i], hget, ?_⟩
+    rcases h with ⟨u, hu, e⟩ | ⟨u, hu, e⟩
+    · exact ⟨u, hu, Or.inl e⟩
+    · exact ⟨u, hu, Or.inr e⟩
+  · rintro ⟨t, ht, u, hu, e⟩
+    have hi : i < old.length := by
+      rcases Nat.lt_or_ge i old.length with h | h
+      · exact h
+      · rw [List.getElem?_eq_none h] at ht; cases ht
+    refine ⟨hi, ?_⟩
+    rw [ht]
+    simp only [Bool.or_eq_true, List.any_eq_true, decide_eq_true_eq]
+    rcases e with e | e
+    · exact Or.inl ⟨u, hu, e⟩
+    · exact Or.inr ⟨u, hu, e⟩
+
+/-- the angles (1,2,0) and (2,0,1) of a 3-ring survive a pattern angle (0,1,2); only the identical one (listed
+    backwards here) is replaced -/
+example : existingIdx [⟨[2, 1, 0], 0, []⟩, ⟨[1, 2, 0], 1, []⟩, ⟨[2, 0, 1], 0, []⟩] [[0, 1, 2]] = [0] := by decide
+
 /-! ### the round trip A → B → A -/
 
 /-- the multiset carrier of the property: (element, position) of every atom, in order -/
